@@ -268,4 +268,23 @@ example : ¬ Cached [] := by decide
 example : ¬ Cached [("Cache-Control", "public"), ("Pragma", "no-cache")] := by decide
 example : redact [.msg (asc "a"), .rfc sampleErr] ≠ [.msg (asc "a"), .rfc sampleErr] := by decide
 
+/-- The form_post document never posts to a URI html/template does not trust: its action is the redirect
+    URI exactly when the URL filter keeps it, and the neutral `#ZgotmplZ` otherwise — for the success and the
+    error writer alike (a `javascript:` / `data:` redirect URI cannot become the action of the auto-submitting
+    form). -/
+theorem form_post_action_kept_or_neutralised (ar : Fosite.Model.Render.AuthReq)
+    (h : Fosite.Model.Render.Headers) (params : List (Fosite.Model.Render.Bytes × Fosite.Model.Render.Bytes))
+    (hm : ar.mode = Fosite.Model.Render.mFormPost) :
+    (Fosite.Model.Render.writeAuthorizeResponse ar h params).target =
+      (if ar.actionKept then ar.redirBase else Fosite.Model.Render.zgotmpl) := by
+  unfold Fosite.Model.Render.writeAuthorizeResponse
+  simp only [hm, if_true, Fosite.Model.Render.formTarget]
+
+theorem form_post_error_action_kept_or_neutralised (cfg : Fosite.Model.Render.Cfg) (ar : Fosite.Model.Render.AuthReq)
+    (err : Fosite.Model.Render.GoErr) (hv : ar.redirValid = true) (hm : ar.mode = Fosite.Model.Render.mFormPost) :
+    (Fosite.Model.Render.writeAuthorizeError cfg ar err).target =
+      (if ar.actionKept then ar.redirBase else Fosite.Model.Render.zgotmpl) := by
+  rw [Fosite.Proofs.Render.writeAuthorizeError_form cfg ar err hv hm]
+  rfl
+
 end Fosite.Props.C20
